@@ -94,6 +94,11 @@ pub struct Interpreter<TStdlib: Stdlib, TStdIn: Input, TStdOut: Printer, TLpt1: 
 
     last_error_address: Option<usize>,
 
+    /// The sizes of the register stack and the value stack when the error handler was entered.
+    /// `RESUME` and `RESUME NEXT` restore them, because the handler can resume from within
+    /// one of its own `FOR` or `SELECT CASE` blocks.
+    last_error_depths: (usize, usize),
+
     last_error_code: Option<i32>,
 
     print_state: PrintState,
@@ -259,6 +264,8 @@ impl<TStdlib: Stdlib, TStdIn: Input, TStdOut: Printer, TLpt1: Printer> Interpret
                             // store error address, so we can call RESUME and RESUME NEXT from within the error handler
                             self.context.push_error_handler_context();
                             self.last_error_address = Some(i);
+                            self.last_error_depths =
+                                (self.register_stack.len(), self.value_stack.len());
                             i = handler_address;
                         }
                         ErrorHandler::Next => {
@@ -324,6 +331,7 @@ impl<TStdlib: Stdlib, TStdIn: Input, TStdOut: Printer, TLpt1: Printer>
             function_results: vec![],
             value_stack: vec![],
             last_error_address: None,
+            last_error_depths: (1, 0),
             last_error_code: None,
             print_state: PrintState::new(),
             print_state_stack: vec![],
@@ -555,12 +563,14 @@ impl<TStdlib: Stdlib, TStdIn: Input, TStdOut: Printer, TLpt1: Printer>
                         .find_current(last_error_address),
                 );
                 self.context.pop();
+                self.restore_last_error_depths();
             }
             Instruction::ResumeNext => {
                 let last_error_address = self.take_last_error_address().with_err_at(&pos)?;
                 ctx.opt_next_index =
                     Some(ctx.nearest_statement_finder.find_next(last_error_address));
                 self.context.pop();
+                self.restore_last_error_depths();
             }
             Instruction::ResumeLabel(resume_label, for_depth, select_depth) => {
                 // not using the last error address but need to clear it which also clears the err code
@@ -793,6 +803,13 @@ impl<TStdlib: Stdlib, TStdIn: Input, TStdOut: Printer, TLpt1: Printer>
 
     /// Gets the instruction address where the most recent error occurred.
     /// Clears that address and also clears the most recent error code.
+    /// Leaves the `FOR` and `SELECT CASE` blocks of the error handler.
+    fn restore_last_error_depths(&mut self) {
+        let (registers, values) = self.last_error_depths;
+        self.register_stack.truncate(registers.max(1));
+        self.value_stack.truncate(values);
+    }
+
     fn take_last_error_address(&mut self) -> Result<usize, RuntimeError> {
         self.last_error_code = None;
         match self.last_error_address.take() {
